@@ -223,6 +223,13 @@ def run(ctx):
                             dict(a.replay(), edited_lines=b.lines, handler_names=list(a.hnames),
                                  handlers_with_overrides=list(la), handlers_edited=list(lb)),
                             signature="C14:handlers-differ-from-edited:%s" % ("count" if la[0] != lb[0] else "calls"))
+        elif (b.out[0] == "cfg" and b.out[1] == "conversion" and a.out[1] != "conversion"
+              and len(b.out) > 4 and b.out[4] not in [o.split("=", 1)[1] for o in a.overrides if "=" in o]):
+            # the hand-edited text fails on something that is not an override VALUE (e.g. the KEY of a specifier does not
+            # convert under the key type of the addressed section: the option syntax reports that as a syntax error, the
+            # text as a conversion error; both reject, and the property speaks of unconvertible VALUES only) - false alarm
+            # of the thorough tier, seed 0
+            ctx.count("rejected-both:override-key-does-not-convert")
         elif b.out[0] == "cfg" and b.out[1] == "conversion" and a.out[1] != "conversion":
             ctx.violate("an unconvertible override value is reported as %s, not as a conversion error" % a.out[1],
                         dict(a.replay(), edited_lines=b.lines), signature="C14:bad-value-kind:" + a.out[1])
